@@ -30,6 +30,8 @@ def check(ctx):
         lc = lifecycle(a, cls)
         hd = handles(a, cls)
         mark_qos0_exception(cat)
+        from ..lifecycle import rule_session_field
+        rule_session_field(ctx, cat, "X-MODE", "cleanStart", "the session mode", 'a refused or rejected connect(), or a handler, changes the session mode under which the next loss and the next CONNACK treat the pending requests')
         ctx.ob("X-MODE", "%s the session mode is recorded when connect() is accepted, before any loss can happen" % cq, lc.clean_at_connect,
                where=where(lc.clean_event) if lc.clean_event is not None else cls.module.path,
                function=lc.clean_event.func if lc.clean_event is not None else "", construct="session-mode/recorded-at-connect",
